@@ -607,6 +607,8 @@ pub const CORE_OPS: &[&str] = &[
     "glwe_to_lwe_key_encrypt_sk", "lwe_to_glwe_key_encrypt_sk",
     // poulpy-ckks
     "ckks_add_into", "ckks_mul_into", "ckks_square_into", "ckks_rotate_into", "ckks_rescale_into",
+    // poulpy-ckks composite forms (temporaries carved out of scratch, recursion depth log2(n))
+    "ckks_add_many", "ckks_mul_many", "ckks_mul_add_ct_into", "ckks_mul_sub_ct_into", "ckks_dot_product_ct",
 ];
 
 /// operations whose call takes a scratch argument (the others are only meaningful for c11core / c17core)
